@@ -110,8 +110,9 @@ def classify(prog, fi, g, dom, n, c):
     if name == "_dispatch":
         for d in dom[n.id]:
             b = g.nodes[d]
-            if b.kind == "branch" and isinstance(b.test, ast.Compare) and dump(b.test).endswith("is not None") \
-                    and b.polarity is False:
+            if b.kind == "branch" and isinstance(b.test, ast.Compare) and (
+                    (dump(b.test).endswith("is not None") and b.polarity is False) or
+                    (dump(b.test).endswith("is None") and b.polarity is True)):
                 return "no callable found", spec.CODE_NOT_FOUND
     return None, None
 
